@@ -8,16 +8,18 @@ Import ListNotations.
 
 (* 1. nothing can be blocked by the session's own locks: in every reachable state every task is finished,
       waiting for the PEER (data not yet sent / verdict not yet sent: released by 3. below or by the open
-      timer CTimeout), able to step, or queued on the writer mutex behind a holder that is able to step *)
+      timer CTimeout), the forwarding task waiting for the local APPLICATION's next chunk (parked in recv() of
+      the outbound channel; woken by the next send or by close()), able to step, or queued on the writer
+      mutex behind a holder that is able to step *)
 Theorem C09_no_deadlock : forall progs buf pend sched t,
   let s := run (init progs buf pend) sched in
-  finished s t \/ awaits_peer s t \/ step s t <> None \/
+  finished s t \/ (awaits_peer s t \/ awaits_app s t) \/ step s t <> None \/
   (waits_pc (pcof s t) = true /\ exists h, wr s = Some h /\ step s h <> None).
 Proof. intros. apply no_deadlock. apply run_inv. apply inv_init. Qed.
 Print Assumptions C09_no_deadlock.
 
 (* 2. ... and never for long: under ANY schedule a task takes at most `progw program` steps in total
-      (8 per write, 10 per open, 3 per close, 1 otherwise), so every granted step is progress towards the end *)
+      (8 per write, 10 per open, 3 per close, 9 per iteration of the forwarding loop, 1 otherwise), so every granted step is progress towards the end *)
 Theorem C09_bounded_steps : forall progs buf pend sched t,
   t <> rtid -> (steps_of t (init progs buf pend) sched <= progw (nth t progs []))%nat.
 Proof. intros. apply budget. assumption. Qed.
